@@ -116,3 +116,31 @@ Print Assumptions c02_coord_blocks_concat.
 Example c02_example : starts_table 7 3 = [0; 2; 4; 7] /\ bmax 7 3 = 3 /\ owner 7 3 4 = 2
   /\ handler_bufsize [4;5;7;8] [1;3] [0;1] [flux_surface; v_parallel; poloidal] = 540.
 Proof. vm_compute. repeat split. Qed.
+
+(** buffer sufficiency in both orientations (BufExtent.v): for a compatible pair the constructor's size does not depend
+    on the order of the two layouts, holds the block of either layout, and bounds the cells touched by the step
+    l1 -> l2 and by the step l2 -> l1 (destination block and the p padded send/receive blocks); with
+    c02_bufsize_pair: all of it is at most handler_bufsize for every enumerated pair.  No n >= p hypothesis. *)
+From PGV Require BufExtent TransposeFrameExec.
+Theorem c02_bufsize_both_orientations :
+  forall (Nl nprocs l1 l2 : list nat) (d' : nat),
+  cfg_wf_b Nl nprocs l1 l2 d' = true -> compatible nprocs l1 l2 = true ->
+  forall r, r < nranks nprocs ->
+  pair_bufsize Nl nprocs (unravel nprocs r) l1 l2 = pair_bufsize Nl nprocs (unravel nprocs r) l2 l1 /\
+  (l_size Nl nprocs l1 (unravel nprocs r) <= pair_bufsize Nl nprocs (unravel nprocs r) l1 l2 /\
+   l_size Nl nprocs l2 (unravel nprocs r) <= pair_bufsize Nl nprocs (unravel nprocs r) l1 l2) /\
+  (TransposeFrameExec.mh_extent Nl nprocs d' l1 l2 r <= pair_bufsize Nl nprocs (unravel nprocs r) l1 l2 /\
+   TransposeFrameExec.mh_extent Nl nprocs d' l2 l1 r <= pair_bufsize Nl nprocs (unravel nprocs r) l1 l2).
+Proof.
+  intros. split; [apply (BufExtent.pair_bufsize_sym Nl nprocs l1 l2 d'); assumption|].
+  split; [apply (BufExtent.pair_bufsize_ge_both Nl nprocs l1 l2 d'); assumption|apply BufExtent.step_extent_le_pair; assumption].
+Qed.
+Print Assumptions c02_bufsize_both_orientations.
+Theorem c02_bufsize_both_orientations_handler :
+  forall (Nl nprocs : list nat) (d' : nat) (layouts : list (list nat)) (l1 l2 : list nat) r,
+  cfg_wf_b Nl nprocs l1 l2 d' = true -> compatible nprocs l1 l2 = true -> r < nranks nprocs ->
+  In (l1, l2) (all_pairs nprocs [] layouts) ->
+  TransposeFrameExec.mh_extent Nl nprocs d' l1 l2 r <= handler_bufsize Nl nprocs (unravel nprocs r) layouts /\
+  TransposeFrameExec.mh_extent Nl nprocs d' l2 l1 r <= handler_bufsize Nl nprocs (unravel nprocs r) layouts.
+Proof. exact BufExtent.step_extent_le_bufsize. Qed.
+Print Assumptions c02_bufsize_both_orientations_handler.
